@@ -2,7 +2,7 @@
    Model: model/Bitcoin.v (framing.py:119-267; session.py:283-316); constants from
    gen/Gen_framing.v.  The checksum function is universally quantified: the theorems hold
    for every 4-byte checksum (the real one is the first four bytes of double SHA-256). *)
-From AV Require Import Base Sha256 Bitcoin BitcoinProofs Gen_framing.
+From AV Require Import Base Sha256 Bitcoin BitcoinProofs Gen_framing BitcoinCode BitcoinCodeProofs.
 
 Definition the_params : params :=
   {| p_magic := btc_magic; p_max_payload := btc_max_payload_size;
@@ -124,6 +124,25 @@ Example C07_ex_roundtrip :
   | None => False end.
 Proof. vm_compute. reflexivity. Qed.
 
+(* the reading path - BitcoinFramer._receive_header and BinaryFramer.receive_message - and the writing path -
+   pad_command, _build_header, frame - are translated from the Python source on every run (gen/Gen_framing.v:
+   btc_header_code, btc_message_code, btc_pad_code, btc_build_header_parts, btc_frame_parts); nothing was left
+   untranslated.  Run over the byte queue the translated reading path is the model's receive_message - for every checksum
+   function, parameter set and queue state (an await that cannot be satisfied blocks: Starved, nothing consumed) - and
+   the translated writing path is the model's frame *)
+Theorem C07_framer_code_known : fknown 4 btc_header_code && fknown 4 btc_message_code = true.
+Proof. exact framer_code_known. Qed.
+
+Theorem C07_receive_message_from_source : forall cks P buf chunks, p_block_cmd P = btc_block_command ->
+  receive_message_generated cks P buf chunks = FDone (receive_message cks P buf chunks).
+Proof. exact generated_receive_message. Qed.
+
+Theorem C07_pad_command_from_source : forall c, pad_generated c = Some (pad_command c).
+Proof. exact generated_pad_command. Qed.
+
+Theorem C07_frame_from_source : forall cks P c p, frame_generated cks P c p = Some (frame cks P c p).
+Proof. exact generated_frame. Qed.
+
 Print Assumptions C07_header_facts.
 Print Assumptions C07_frame_layout.
 Print Assumptions C07_chunking_independent.
@@ -137,3 +156,7 @@ Print Assumptions C07_badchecksum_keeps_sync.
 Print Assumptions C07_magic_oversize_deliver_nothing.
 Print Assumptions C07_limits.
 Print Assumptions C07_session_policy.
+Print Assumptions C07_framer_code_known.
+Print Assumptions C07_receive_message_from_source.
+Print Assumptions C07_pad_command_from_source.
+Print Assumptions C07_frame_from_source.
